@@ -96,6 +96,8 @@ def gen_assembly(rs: Stream, opts: Dict[str, Any]) -> Dict[str, Any]:
     jit = rs.pick(opts.get("jitters", [0.0, 0.05, 0.15]))
     spacing = [rs.uniform(0.6, 1.8) for _ in range(3)] if rs.chance(0.6) else [1.0, 1.0, 1.0]
     points: Dict[str, List[float]] = {}
+    # some assemblies live far from the origin
+    origin = [round(rs.uniform(-5000, 5000), 1) for _ in range(3)] if rs.chance(0.1) else [0.0, 0.0, 0.0]
     for c in cells:
         for off in hexref.CORNER_POS:
             node = (c[0] + off[0], c[1] + off[1], c[2] + off[2])
@@ -103,7 +105,7 @@ def gen_assembly(rs: Stream, opts: Dict[str, Any]) -> Dict[str, Any]:
             if pid not in points:
                 jr = Stream(rs.key, "jit", pid)
                 points[pid] = [
-                    round(node[i] * spacing[i] + (jr.uniform(-jit, jit) * min(spacing) if jit else 0.0), 6) for i in range(3)
+                    round(origin[i] + node[i] * spacing[i] + (jr.uniform(-jit, jit) * min(spacing) if jit else 0.0), 6) for i in range(3)
                 ]
     blocks = []
     for i, c in enumerate(cells):
